@@ -111,7 +111,7 @@ func switchers() []switcher {
 var outlierN int64
 
 func TestRaceAndAtomicSwitch(t *testing.T) {
-	hx.Check(t, hx.N{Quick: 40, Thorough: 150}, func(t *rapid.T, c *hx.Case) {
+	hx.Check(t, hx.N{Quick: 60, Thorough: 300}, func(t *rapid.T, c *hx.Case) {
 		// real clock: the race build is about real schedules, not virtual time
 		util.SetClock(util.NewRealClock())
 		defer util.SetClock(hx.C)
